@@ -144,7 +144,7 @@ Section Eqs.
       if b then exec_block fo tys r th else exec_els fo tys r el)).
   Proof. reflexivity. Qed.
   Lemma exec_stmt_return r e :
-    exec_stmt fo tys r (SReturn e) = bind (eval fo tys r e) (fun v => Ok (Ret v)).
+    exec_stmt fo tys r (SReturn e) = bind (eval fo tys r e) (fun v => Ok (Ret v r)).
   Proof. reflexivity. Qed.
   Lemma exec_block_nil r : exec_block fo tys r BNil = Ok (Next r).
   Proof. reflexivity. Qed.
